@@ -227,6 +227,22 @@ def one(rec, pvl, dialect, cfg, module, wit, via):
     for idx in (1, 2, 3):
         ok, conv = allowed_change(snaps[idx - 1], snaps[idx], dialect)
         total_conv += conv
+        # the documented in-place change: when the top level has groups and no
+        # object, ONE group (the first that is no valid PDS group, else the
+        # first) becomes an object - so at most one per call, and none once the
+        # top level has an object
+        had_object = any(isinstance(v, tuple) and v and v[0] == "PVLObject"
+                         for _, v in snaps[idx - 1][1]) \
+            if isinstance(snaps[idx - 1][1], tuple) else False
+        if ok and (conv > 1 or (conv == 1 and had_object)):
+            rec.violation(CHECK, dialect, "argument-damaged-by-dump",
+                          {**feats, "call": idx, "groups_converted_in_one_call": conv,
+                           "top_level_had_an_object": had_object},
+                          {**wit, "before": repr(snaps[idx - 1])[:700],
+                           "after": repr(snaps[idx])[:700]},
+                          f"call {idx} converted {conv} top-level groups in place "
+                          f"(documented: one, and only when there is no object)")
+            return
         if not ok:
             rec.violation(CHECK, dialect, "argument-damaged-by-dump",
                           {**feats, "call": idx},
